@@ -333,6 +333,7 @@ type Req struct {
 	Host    string
 	URLHost string // URL.Host: empty for an origin-form target; an absolute-form target or a rewriting proxy sets it
 	Header  map[string]string
+	Multi   map[string][]string // further field lines of a header (a list header may be spread over several lines)
 	Fault   *Fault
 }
 
@@ -357,6 +358,16 @@ func (q Req) String() string {
 			s += fmt.Sprintf(" %s=%q", k, q.Header[k])
 		}
 	}
+	if len(q.Multi) > 0 {
+		ks := make([]string, 0, len(q.Multi))
+		for k := range q.Multi {
+			ks = append(ks, k)
+		}
+		sort.Strings(ks)
+		for _, k := range ks {
+			s += fmt.Sprintf(" +%s=%q", k, q.Multi[k])
+		}
+	}
 	return s
 }
 
@@ -372,6 +383,11 @@ func NewRequest(q Req, o *Obs) *http.Request {
 	}
 	for k, v := range q.Header {
 		r.Header.Set(k, v)
+	}
+	for k, vs := range q.Multi {
+		for _, v := range vs {
+			r.Header.Add(k, v)
+		}
 	}
 	o.Fault = q.Fault
 	return r.WithContext(context.WithValue(context.Background(), obsKey{}, o))
